@@ -1,4 +1,5 @@
 """C07 — cancelling a booking takes effect and stays in effect, whatever races with it"""
+import re
 import vlib
 from relaycommon import RelayMode
 
@@ -17,6 +18,9 @@ ASSUMPTIONS = ["each segment between two scheduling points is atomic (store call
                "xbar.deny_processed / ws.registered is not generated"]
 THEOREMS = [("Conc.race_session_erases_deny", "Relay.Props.C07"), ("Conc.race_admission_slips_past", "Relay.Props.C07"),
             ("Conc.not_DenySticks", "Relay.Props.C07"), ("Conc.handlers_as_modelled", "Relay.Props.C07"),
+            ("Conc.violations_are_the_two_shapes", "Relay.Props.C07Class"), ("Conc.run_cinv", "Relay.Props.C07Class"),
+            ("Conc.deny_sticks_without_races", "Relay.Props.C07Class"),
+            ("Conc.k1_is_pattern_A", "Relay.Props.C07Class"), ("Conc.k2_is_pattern_B", "Relay.Props.C07Class"),
             ("Relay.deny_sticks_atomic_partial", "Relay.Props.C07Seq"), ("Relay.deny_effect", "Relay.Props.C07Seq"),
             ("Relay.run_inv", "Relay.Props.C07Seq"), ("TtlCode.purge_kills", "Relay.Props.C02"),
             ("ChanMap.delparent_closes_exactly", "Relay.Props.C08ChanMap")]
@@ -129,9 +133,28 @@ class SchedMode(vlib.Mode):
                     fails.append(self._sig(case, parked, acked_at, f"{d.get('members')} connection(s) live under the denied booking at quiescence")); break
         return fails
 
+    def from_model(self, case, impl_out, model_out):
+        # the model's `obs` also prints its two ghost pattern flags (Props/C07Class: every violation of the model
+        # sets one of them); they are not observable on the implementation and are kept aside for the signatures
+        fl, res = {"A": False, "B": False}, []
+        for o in model_out:
+            m = re.search(r" A=([tf]) B=([tf])$", o)
+            if m:
+                fl = {"A": fl["A"] or m.group(1) == "t", "B": fl["B"] or m.group(2) == "t"}
+                o = o[:m.start()]
+            res.append(o)
+        self.model_flags = getattr(self, "model_flags", {})
+        self.model_flags[tuple(case)] = fl
+        return res
+
     def _sig(self, case, parked, acked_at, what):
+        # a known-finding signature needs BOTH the schedule shape on the implementation and (when the model ran this
+        # case) the model's pattern flag: a violation the classification theorem does not explain stays a VIOLATION
+        fl = getattr(self, "model_flags", {}).get(tuple(case), {"A": True, "B": True})
         for k, (w, r, point) in parked.items():
             if w < acked_at and (r is None or r > acked_at):
+                if point == "session.checked" and not fl["A"]: break
+                if point == "ws.checked" and not fl["B"]: break
                 if point == "session.checked":
                     return ("K1-session-allow-erases-deny", what + " [pattern A: a session passed its deny check, a deny completed, then the session's Allow ran]")
                 if point == "ws.checked":
